@@ -55,6 +55,34 @@ def check_blend(P, R):
         "means": ([f"{sp}.sum_px"], [f"{mp}.ubm.means"], []),
         "variances": ([f"{sp}.sum_pxx"], [f"{mp}.ubm.variances"], [f"{mp}.means"]),
     }
+    def through_helper(v, cst, data_a, prior_a, neg_a, al):
+        """`machine.x = _helper(statistics, machine.ubm.x, alpha, ...)`: analyse what the helper returns, with the patterns expressed in
+        the helper's parameter names.  -> (function, def-use, returned expression, return statement, translated patterns) or None"""
+        if not isinstance(v, ast.Call):
+            return None
+        tg = [t_[1] for t_ in P.resolve_callee(v.func, f) if t_[0] == "repo"]
+        if not tg:
+            return None
+        g = tg[0]
+        rets = [r for r in walk_no_nested(g.node) if isinstance(r, ast.Return) and r.value is not None]
+        if len(rets) != 1:
+            return None
+        b = P.bind_args(g, v.args, v.keywords)
+        ren = {src(a_): p_ for p_, a_ in b.items() if isinstance(a_, (ast.Name, ast.Attribute))}
+
+        def tr(pats):
+            out = []
+            for x in pats:
+                y = x
+                for a_txt, p_ in sorted(ren.items(), key=lambda kv: -len(kv[0])):
+                    if x == a_txt or x.startswith(a_txt + "."):
+                        y = p_ + x[len(a_txt):]
+                        break
+                out.append(y)
+            return out
+
+        return g, get_defuse(g, P), rets[0].value, rets[0], tr(data_a), tr(prior_a), tr(neg_a), tr([al])[0]
+
     for st, t, v, k in stores(f):
         if not (isinstance(t, ast.Attribute) and isinstance(t.value, ast.Name) and t.value.id == mp and t.attr in specs and k == "assign"):
             continue
@@ -63,21 +91,33 @@ def check_blend(P, R):
         blend = v
         prior_arm = None
         cst = du.stmt_of(st)
+        fa, dua, pa, al, mpa = f, du, p, "alpha", mp
+        hop = through_helper(v, cst, data_a, prior_a, neg_a, "alpha")
+        if hop is not None:
+            fa, dua, v, cst, data_a, prior_a, neg_a, al = hop
+            pa = pol.Pol(P, fa, opaque={al})
+            blend = v
+            mpa = None
         if isinstance(v, ast.Call) and src(v.func).split(".")[-1] == "where" and len(v.args) == 3:
             cond = v.args[0]
-            cc = cone(du, cond, cst, interproc=False)
+            cc = cone(dua, cond, cst, interproc=False)
             on_n = any(a.endswith(".n") for a in cc.attrs)
             small_true = isinstance(cond, ast.Compare) and isinstance(cond.ops[0], (ast.Lt, ast.LtE))
             R.check(on_n and small_true, "GUARD.no-evidence", f.key, f"{src(t)} = np.where({src(cond)[:50]}, ...)", "no-evidence test on the responsibility mass", "the fallback of the adapted parameter is not selected by `n < threshold`", st.lineno)
             prior_arm, blend = v.args[1], v.args[2]
-            pattrs = direct_attrs(du, prior_arm, cst)
-            only_prior = all(a.startswith(f"{mp}.ubm") or a.startswith(f"{mp}.means") or a.split(".")[-1] in ("shape", "ndim") or a.split(".")[0] in ("np", "numpy") for a in pattrs)
-            has_prior = any(a.startswith(f"{mp}.ubm.{t.attr}") for a in pattrs)
+            pattrs = direct_attrs(dua, prior_arm, cst)
+            if mpa is not None:
+                only_prior = all(a.startswith(f"{mp}.ubm") or a.startswith(f"{mp}.means") or a.split(".")[-1] in ("shape", "ndim") or a.split(".")[0] in ("np", "numpy") for a in pattrs)
+                has_prior = any(a.startswith(f"{mp}.ubm.{t.attr}") for a in pattrs)
+            else:
+                # inside a helper the prior's parameter arrives as a parameter of its own
+                pnames = {x.id for x in ast.walk(prior_arm) if isinstance(x, ast.Name)}
+                only_prior = pnames <= set(prior_a) | {"np", "numpy"} and not pattrs - set(prior_a)
+                has_prior = bool(pnames & set(prior_a))
             R.check(only_prior and has_prior, "GUARD.no-evidence-prior", f.key, f"fallback of {t.attr}: {src(prior_arm)[:50]}", "a component without evidence keeps the prior's parameter", "the no-evidence fallback does not (only) depend on the prior's parameter: a component that receives no data does not keep the prior", st.lineno)
         elif t.attr in ("means", "variances"):
             R.violation("GUARD.no-evidence", f.key, f"{src(t)} = {src(v)[:50]}", f"the adapted {t.attr} are stored without the `n < threshold` fallback to the prior: a component without evidence gets 0/0 or a value that is not the prior's", st.lineno)
-        terms = list(dict.fromkeys(p.terms(blend, cst)))
-        al = "alpha"
+        terms = list(dict.fromkeys(pa.terms(blend, cst)))
         def has(a, pats):
             return any(pol._match(x, pats) for x in a)
         data_t = [(s_, a) for s_, a in terms if has(a, data_a)]
@@ -91,15 +131,15 @@ def check_blend(P, R):
         R.check(bool(plain) and bool(minus) and not other, "BLEND.prior", f.key, what, pol.fmt_terms(prior_t)[:100], f"the prior term of the adapted {t.attr} is not weighted by (1 - alpha): {pol.fmt_terms(prior_t) or 'missing'}", st.lineno)
         # numerator / denominator placement: data sums, prior parameters and alpha multiply (x * w and x / w look alike to the
         # sign and unit rules when w is dimensionless)
-        pi = pol.Pol(P, f, opaque={"alpha"}, track_inv=True)
+        pi = pol.Pol(P, fa, opaque={al}, track_inv=True)
         it = list(dict.fromkeys(pi.terms(blend, cst)))
         pol.check_inverse(R, "BLEND.placement", f.key, it, direct=data_a + prior_a + [al] + neg_a, what=f"{t.attr}: data, prior and alpha stand in numerators", line=st.lineno)
-        pc = pol.Pol(P, f, opaque={"alpha"}, track_coef=True)
+        pc = pol.Pol(P, fa, opaque={al}, track_coef=True)
         tc = list(dict.fromkeys(pc.terms(blend, cst)))
         pol.check_coefficients(R, "BLEND.coef", f.key, tc, [([x_], None) for x_ in data_a + prior_a], what=f"{t.attr}: alpha*data + (1 - alpha)*prior has no other literal factor", line=st.lineno)
         if prior_arm is not None:
             for na in neg_a:
-                pt = list(dict.fromkeys(p.terms(prior_arm, cst)))
+                pt = list(dict.fromkeys(pa.terms(prior_arm, cst)))
                 nt = [(s_, a) for s_, a in pt if has(a, [na]) and not has(a, prior_a)]
                 R.check(bool(nt) and all(s_ == -1 for s_, a in nt), "BLEND.mean2", f.key, f"{t.attr} fallback: - adapted mean^2", pol.fmt_terms(nt)[:80], f"the squared adapted mean is not subtracted in the no-evidence fallback of the variances: {pol.fmt_terms(nt) or 'missing'}", st.lineno)
         for na in neg_a:
